@@ -45,20 +45,20 @@ def validate(mdir):
     return out
 
 
-def run_checks(mdir, checks, tier):
+def run_checks(mdir, checks, tier, repo='/repo'):
     res = {}
-    st = sh('git -C /repo status --porcelain --untracked-files=no').stdout.strip()
-    assert st == '', f'/repo not clean: {st}'
-    r = sh(f'git -C /repo apply {mdir}/patch.diff')
+    st = sh(f'git -C {repo} status --porcelain --untracked-files=no').stdout.strip()
+    assert st == '', f'{repo} not clean: {st}'
+    r = sh(f'git -C {repo} apply {mdir}/patch.diff')
     assert r.returncode == 0, r.stderr
     try:
         for c in checks:
             t = time.time()
-            r = sh(f'cd /verif && VERIF_COQCHK=0 ./check {c} {tier}')
+            r = sh(f'cd /verif && VERIF_REPO={repo} VERIF_COQCHK=0 ./check {c} {tier}')
             lines = [l for l in r.stdout.splitlines() if l.startswith(('VIOLATION', 'KNOWN-FINDING', '  leg='))]
             res[c] = {'rc': r.returncode, 'lines': lines[:6], 'wall_s': round(time.time() - t, 1)}
     finally:
-        sh('git -C /repo checkout -- .')
+        sh(f'git -C {repo} checkout -- .')
     return res
 
 
@@ -69,13 +69,14 @@ def main():
     ap.add_argument('--checks', default='')
     ap.add_argument('--tier', default='quick')
     ap.add_argument('--record', action='store_true')
+    ap.add_argument('--repo', default='/repo', help='tree to patch and check (default /repo; a scratch worktree for regressions)')
     a = ap.parse_args()
     mdir = os.path.abspath(a.mdir)
     out = {'mutation': mdir}
     if a.validate:
         out['validation'] = validate(mdir)
     if a.checks:
-        out['checks'] = run_checks(mdir, a.checks.split(','), a.tier)
+        out['checks'] = run_checks(mdir, a.checks.split(','), a.tier, a.repo)
     if a.record:
         mp = os.path.join(mdir, 'meta.json')
         try:
